@@ -88,16 +88,36 @@ IndexR(s, r) == LET I == {i \in DOMAIN s : s[i].r = r} IN IF I = {} THEN 0 ELSE 
 
 \* ---- the state as a record (threaded through the propagation) ----------
 Cur == [out |-> out, lst |-> lst, sreg |-> sreg, reg |-> reg, hnd |-> hnd, alive |-> alive,
-        qlist |-> qlist, chD |-> chD, chU |-> chU, ngen |-> ngen, evs |-> <<>>]
+        qlist |-> qlist, chD |-> chD, chU |-> chU, ngen |-> ngen, evs |-> <<>>,
+        \* entries <<pipe, request, proxies, generation>> whose `registered` flag is down although the pipe
+        \* has an output: only while STRUCTURE##_set_output re-issues them one by one (transient)
+        unr |-> {}]
+Key(n, e) == <<n, e.r, e.d, e.g>>
+HasRereq(p) == "rereq" \in DOMAIN cfg /\ cfg.rereq[p]
 
 Ev(S, e) == [S EXCEPT !.evs = Append(@, e)]
 
 \* the provider invokes the call-back of entry e: in the thread of the
 \* requester it runs through the proxies to the original request; an entry
 \* that came through the queue source sends an out-of-band message upstream
+RECURSIVE Answer(_, _, _), Rereq(_, _), RegOut(_, _, _)
 Answer(S, e, val) ==
-  IF e.g = 0 THEN Ev(S, <<"cb", e.r, T(e.r), val>>)
+  IF e.g = 0
+  THEN LET S1 == Ev(S, <<"cb", e.r, T(e.r), val>>)
+           p == cfg.owner[e.r]
+       IN IF p # NONE /\ HasRereq(p) THEN Rereq(S1, p) ELSE S1
   ELSE [S EXCEPT !.chU = Append(@, [r |-> e.r, g |-> e.g, val |-> val])]
+
+\* what the check call-back of many pipes does (a flow format answer makes the pipe require its buffer
+\* manager again, ...): pipe p re-requires those of its own requests that are not registered on its output
+\* at this moment - they leave the list (nothing to withdraw) and are registered again, at its tail
+Rereq(S, p) ==
+  LET I == {i \in DOMAIN S.lst[p] : cfg.owner[S.lst[p][i].r] = p /\ Key(p, S.lst[p][i]) \in S.unr}
+  IN IF I = {} THEN S
+     ELSE LET i == Min(I)
+              e == S.lst[p][i]
+              S1 == [S EXCEPT !.lst[p] = RemoveAt(@, i), !.unr = @ \ {Key(p, e)}]
+          IN Rereq(RegOut(S1, p, e).s, p)
 
 \* upipe_throw_provide_request(n, e)
 ThrowAt(S, n, e) ==
@@ -109,12 +129,12 @@ ThrowAt(S, n, e) ==
              THEN [s |-> Answer(Ev(S1, <<"prov", cfg.pname[n], e.r, e.d>>), e, PVal[t]), e |-> 0]
              ELSE [s |-> S1, e |-> UNH]
 
-RECURSIVE RegAt(_, _, _), UnregAt(_, _, _), RegOut(_, _, _), UnregOutIdx(_, _, _),
+RECURSIVE RegAt(_, _, _), UnregAt(_, _, _), UnregOutIdx(_, _, _), Reissue(_, _, _),
           FoldReg(_, _, _), FoldUnreg(_, _, _), Kill(_, _), MaybeKill(_, _)
 
 \* STRUCTURE##_register_output_request(n, e): e is n's own entry
 RegOut(S, n, e) ==
-  LET S1 == [S EXCEPT !.lst[n] = Append(@, e)]
+  LET S1 == [S EXCEPT !.lst[n] = Append(@, e), !.unr = @ \ {Key(n, e)}]
       o == S1.out[n]
   IN IF o # NONE
      THEN LET R == RegAt(S1, o, e)
@@ -207,7 +227,22 @@ DoSetOut(S, m, q) ==
       S1 == IF old # NONE /\ Variant # "setout_keeps_old" THEN FoldUnreg(S, old, S.lst[m]) ELSE S
       S2 == [S1 EXCEPT !.out[m] = q]
       S3 == MaybeKill(S2, old)
-  IN IF q # NONE /\ Variant # "setout_no_reissue" THEN FoldReg(S3, q, S3.lst[m]) ELSE S3
+  IN IF q # NONE /\ Variant # "setout_no_reissue"
+     THEN IF Variant = "setout_one_pass"
+          \* (negative variant) one pass over the list as it was: what an answer re-registered at the tail
+          \* meanwhile is registered a second time
+          THEN [FoldReg([S3 EXCEPT !.unr = {Key(m, S3.lst[m][i]) : i \in DOMAIN S3.lst[m]}], q, S3.lst[m])
+                  EXCEPT !.unr = {}]
+          ELSE [Reissue([S3 EXCEPT !.unr = {Key(m, S3.lst[m][i]) : i \in DOMAIN S3.lst[m]}], m, q) EXCEPT !.unr = {}]
+     ELSE S3
+
+\* the retry loop of set_output: as long as an entry of the list is not registered, register the first such
+\* one (the list may change under the loop: an answer given at once can make the pipe require again)
+Reissue(S, m, q) ==
+  LET I == {i \in DOMAIN S.lst[m] : Key(m, S.lst[m][i]) \in S.unr}
+  IN IF I = {} THEN S
+     ELSE LET e == S.lst[m][Min(I)]
+          IN Reissue(RegAt([S EXCEPT !.unr = @ \ {Key(m, e)}], q, e).s, m, q)
 
 \* ---- transitions --------------------------------------------------------
 C(op, a, b) == [op |-> op, a |-> a, b |-> b]
